@@ -38,8 +38,14 @@ WITNESS:
 		return
 	}
 
-	// Ensure that our local clock is at least one ahead.
-	if !l.counter.CompareAndSwap(cur, other+1) {
+	// Ensure that our local clock is at least one ahead. The top of the
+	// range saturates: other+1 would wrap to zero and move the clock
+	// backwards for a witnessed value of math.MaxUint64.
+	next := other + 1
+	if next == 0 {
+		next = other
+	}
+	if !l.counter.CompareAndSwap(cur, next) {
 		// The CAS failed, so we just retry. Eventually our CAS should
 		// succeed or a future witness will pass us by and our witness
 		// will end.
